@@ -84,7 +84,7 @@ CLAIMED["C18"] = dict(
          "including the length agreement of both slice assignments (this is the obligation the odd-n defect failed). write_WCC_WT_format: "
          "the layout assumed there is proved per shape n = 1..7. The npz-directory, _tb.dat and _hr.dat + centre-file round trips of whole "
          "systems are carried by a bounded stand-in only: real files of random Hermitian systems with num_wann = 1,2,5 (quick) / 1..6 "
-         "(thorough), comparing lattice, centres, Ham(R) and band energies at random k (labelled bounded, not counted as proved). "
+         "(thorough) on 27 R-vectors and on R-sets of 13, 15, 17, 45 (thorough: 1..75) vectors (the 15-per-line layout's corner cases), comparing lattice, centres, Ham(R) and band energies at random k (labelled bounded, not counted as proved). "
          "Not covered deductively: index orders and degeneracy factors of the _tb.dat/_hr.dat writers/readers, PointGroup serialisation.",
     note=TB + "; text model: float(token) returns the number written to printed precision; np.savez/np.load value round trip")
 
@@ -281,6 +281,9 @@ CLAIMED["C01"] = dict(
          "mesh point, that X(-R) = X(R)^dagger with every R paired, that the replica weights of every mesh vector and pair add to 1 (so to "
          "N1 N2 N3 per pair), that Rvectors.remap_XX_R preserves the matrices at the mesh points, and that System_R.do_ws_dist (with exclude_zeros; symbolic entries read as generic non-zero values) keeps every matrix of a system with different non-zero patterns (hoppings, on-site spin, two-vector position matrix) on one common R list. Known finding K1 (recorded, not repaired): Hermiticity fails for one strongly skewed non-reduced cell whose nearest replicas reach the edge of the +-3 super-cell search box. WignerSeitz.__call__ "
          "for EVERY table of distances (symbolic reals, 2 mesh points x 3 replicas): >= 1 entry per mesh point, multiplicities, iRvec mod N. "
+         "WignerSeitz.__init__ (extracted, 4 meshes x 3 search sizes): the candidates of every mesh point are exactly its replicas within the search "
+         "size, both signs alike, with matching Cartesian vectors. Rvectors.set_Rvec (extracted, Wigner-Seitz search replaced by its contract: "
+         "arbitrary per-shift lists with components up to 9): the common R list is the duplicate-free union and every index list points at its own vectors. "
          "Mesh sizes other than 1, 2, 4 need cyclotomic arithmetic the engine lacks: covered only by the bounded stand-in (installed code, "
          "random lattices, meshes 1..5, both FFT libraries).",
     note=TB + "; external DFT contract as in C02; 1./Ndegen read as the rational; np.allclose in the code's own sanity assertions read as equality; np.linalg.norm / np.unique on concrete geometry are real numpy")
@@ -338,7 +341,8 @@ CLAIMED["C07"] = dict(
          "equivariant SYMBOLIC field (value at g.K = T_g of a free tensor averaged over the stabiliser): sum_K factor_K symmetrize(R_K) equals "
          "the mean over the full grid for every field value, every coefficient to 1e-12 -- C4z on 4x4x2, Inversion x TR*C2x on 2x3x2 (quick), "
          "C3z + TR with a rank-2 tensor on a hexagonal 3x3x1 grid (thorough), orbits tile the grid, non-vacuity. The premise 'the system "
-         "genuinely has the symmetry' (result at g.K = T_g result at K) is the property's hypothesis. Bounded stand-in: installed run() with "
+         "genuinely has the symmetry' (result at g.K = T_g result at K) is the property's hypothesis; that the DECLARED transformations used for it "
+         "are the right ones is C08's declaration unit (18 formula classes) and its values-at-(-k) stand-in, both registered here as well (known finding K5 shows up here too). Bounded stand-in: installed run() with "
          "use_irred_kpt + symmetrize against the full unsymmetrised run on Haldane (C3z), the chiral model (C3z, thorough) and random "
          "time-reversal / inversion symmetric models: CumDOS, AHC, Ohmic, Berry dipole, optical conductivity and grid tabulation per k.",
     note=TB + "; rotation matrices are floats (coefficients compared to 1e-12); PointGroup construction and get_K_list run as installed code on concrete input")
